@@ -187,3 +187,35 @@ def clingo_ground(program: str):
         return (True, msgs)
     except RuntimeError as e:
         return (False, msgs + [('error', str(e))])
+
+
+class NonTermination(BaseException):
+    pass
+
+
+class time_limit:
+    """SIGALRM-based limit for a call of the real code in the main thread of a (worker) process.  The real code has bare
+    `except:` clauses that would swallow the interrupt, so the limit is also remembered: leaving the block after the alarm
+    fired raises NonTermination whatever the block itself did with the interrupt."""
+
+    def __init__(self, seconds):
+        self.seconds = int(seconds)
+        self.fired = False
+
+    def _handler(self, signum, frame):
+        self.fired = True
+        raise NonTermination(f'no result after {self.seconds} s')
+
+    def __enter__(self):
+        import signal
+        self.old = signal.signal(signal.SIGALRM, self._handler)
+        signal.alarm(self.seconds)
+        return self
+
+    def __exit__(self, et, ev, tb):
+        import signal
+        signal.alarm(0)
+        signal.signal(signal.SIGALRM, self.old)
+        if self.fired and et is not NonTermination:
+            raise NonTermination(f'no result after {self.seconds} s')
+        return False
